@@ -627,4 +627,38 @@ def check_C04(ctx):
                                          "extraction covers closure-captured and package-level variables, not arbitrary heap aliasing"])
 
 
-CHECKS = {"C11": check_C11, "C09": check_C09, "C16": check_C16, "C17": check_C17, "C15": check_C15, "C10": check_C10, "C12": check_C12, "C08": check_C08, "C13": check_C13, "C20": check_C20, "C05": check_C05, "C19": check_C19, "C06": check_C06, "C07": check_C07, "C14": check_C14, "C18": check_C18, "C03": check_C03, "C02": check_C02, "C04": check_C04}
+# --------------------------------------------------------------------------- C01
+
+EXPR_ALPHA = "{97, 49, 46, 124, 58, 44, 91, 93, 40, 34, 32, 45}"      # a 1 . | : , [ ] ( " space -
+
+
+def check_C01(ctx):
+    cases, _ = ctx.tlc_mc("MC_C01", mc_cfg({"Two": "FALSE" if ctx.quick else "TRUE"}, ["Totality", "StepBound", "EmitCase"]),
+                          timeout=3000, heap="16g")
+    validate_by_module(ctx, ctx.run_cases(cases))
+    L = 2 if ctx.quick else 4
+    ecases, _ = ctx.tlc_mc("MC_C01E", mc_cfg({"L": L, "Alpha": EXPR_ALPHA}, ["ScannerTotal", "EmitCase"]), timeout=3000, heap="16g")
+    ctx.validate(ctx.run_cases(ecases), module="TraceC05", nontrivial_key=lambda o: o["text"], chunk=20000)
+    scases, _ = ctx.tlc_mc("MC_C05", mc_cfg({"L": 4 if ctx.quick else 6, "Alpha": ALPHA8},
+                                            ["PartitionSoFar", "LinesSoFar", "IdentityAtEnd", "EmitCase"]), timeout=3000, heap="16g")
+    ctx.validate(ctx.run_cases(scases), module="TraceC05", nontrivial_key=lambda o: o["text"], chunk=20000)
+    n = 3000 if ctx.quick else 60000
+    for kind in ("fuzztext", "mutants"):
+        gen = ctx.gen(kind, n)
+        ctx.validate(ctx.run_cases(gen, deadline=30), module="TraceC01", nontrivial_key=lambda o: o.get("text", ""))
+    progs = ctx.gen("prog", 2000 if ctx.quick else 30000)
+    for g in progs:
+        g["weird"] = True
+    ctx.validate(ctx.run_cases(progs), module="TraceC01", nontrivial_key=lambda o: o.get("text", ""))
+    ctx.exhaustive = False
+    return finish(ctx, rule="MC_C01: the filter boundary matrix (49 filters x 31 boundary receivers x 0-2 arguments from 16 boundary "
+                            "values) with totality of the reference and a step bound; MC_C01E: every string of <= %d expression "
+                            "symbols inside object/if/assign/for/limit/when/include/cycle; MC_C05 sources; seeded template text over "
+                            "a syntax-rich vocabulary with bindings of every representation named in the statement (structs, "
+                            "pointers, nil pointers, times, byte slices, ordered maps, typed maps, huge and tiny numbers, Drops), "
+                            "mutants of the templates harvested from the repository's tests, and grammar programs; every case is "
+                            "parsed and rendered under a deadline and must return output or a SourceError (TraceC01 / TraceC05)"
+                            % L, assumptions=TRUSTED)
+
+
+CHECKS = {"C11": check_C11, "C09": check_C09, "C16": check_C16, "C17": check_C17, "C15": check_C15, "C10": check_C10, "C12": check_C12, "C08": check_C08, "C13": check_C13, "C20": check_C20, "C05": check_C05, "C19": check_C19, "C06": check_C06, "C07": check_C07, "C14": check_C14, "C18": check_C18, "C03": check_C03, "C02": check_C02, "C04": check_C04, "C01": check_C01}
